@@ -727,6 +727,11 @@ func (p *parser) parseArrayLiteral() ast.Expression {
 func (p *parser) parseIndexExpression(left ast.Expression) ast.Expression {
 	exp := &ast.IndexExpression{TokenAble: ast.TokenAble{Token: p.curToken}, Left: left}
 
+	if left == nil {
+		// the expression before '[' did not parse; its error is already recorded
+		return nil
+	}
+
 	p.nextToken()
 	exp.Index = p.parseExpression(LOWEST)
 
